@@ -288,3 +288,49 @@ def rule_cls_args_signature(db: ProgramDB) -> List[Instance]:
                         f"`{unparse(s_)[:90]}` is not the parameter list of `{p0}.__init__`: positional field values are bound "
                         f"to the wrong fields whenever that order differs from __init__'s", line=s_.lineno))
     return out
+
+
+def rule_decl_filter_paths(db: ProgramDB) -> List[Instance]:
+    """On every path on which a (non-expression) domain is supplied, the domain that reaches the Variable has gone through
+    an isinstance(…, <runtime class>) test: a lazily filtered collection, or a type test of the single object."""
+    from ..abseval import AbsEval, State, TOP, FALSE
+    from ..cfg import CFG
+    out = []
+    fn = db.fn("predicate:extract_selected_variable_and_expression")
+    p0 = fn.positional_params[0]
+    dparam = "domain" if "domain" in fn.params else fn.positional_params[1]
+    cfg = CFG(fn)
+    var_cls = db.cls("Variable")
+
+    def builds_variable(n) -> bool:
+        if n.ast is None or n.kind != "stmt":
+            return False
+        for c in ast.walk(n.ast):
+            if isinstance(c, ast.Call):
+                t = resolve_call_target(db, fn, c)
+                if isinstance(t, ClassInfo) and t.is_subclass_of(var_cls):
+                    return True
+        return False
+
+    def type_tested(n) -> bool:
+        a = n.ast
+        if a is None:
+            return False
+        scan = a
+        for c in ast.walk(scan):
+            if isinstance(c, ast.Call) and dotted(c.func) == "isinstance" and len(c.args) == 2 and unparse(c.args[1]) == p0:
+                return True
+        return False
+
+    def call_hook(c, st, ev):
+        if dotted(c.func) == "isinstance" and len(c.args) == 2 and unparse(c.args[1]).endswith("SymbolicExpression"):
+            return FALSE       # the rule is about object / collection domains
+        return None
+    ev = AbsEval(db, fn, cfg, call_hook=call_hook)
+    p = ev.explore([(cfg.entry, State({dparam: ("obj", "truthy")}))], builds_variable, blocked=type_tested, kinds=("n",))
+    ok = p is None
+    out.append(inst("DECL-FILTER", HOLDS if ok else VIOLATION, fn, "extract_selected_variable_and_expression[every supplied domain is type-filtered]",
+                    f"every path with a supplied domain passes an isinstance(…, {p0}) test before the variable is built" if ok else
+                    f"a supplied domain can reach the variable without any isinstance(…, {p0}) test (e.g. a single object given "
+                    f"as the domain): the variable then ranges over an object of another type: " + " ".join(cfg.describe_path(p)[-3:])))
+    return out
